@@ -13,6 +13,9 @@ use std::rc::Rc;
 use std::time::{Duration, UNIX_EPOCH};
 use turmoil::{Builder, IpVersion, Sim};
 
+pub mod links;
+pub mod tcpprog;
+
 #[derive(Clone, Debug, Serialize, Deserialize, PartialEq)]
 pub struct SimCfg {
     /// turmoil's own rng seed (Builder::rng_seed) — always explicit
@@ -189,6 +192,8 @@ pub fn us(d: Duration) -> u64 {
 // tracing capture (thread-local): turmoil emits Send / Delivered / Recv / Drop / Hold ... events
 // with target "turmoil"; hosts run inside a span "node" with field `name`.
 
+pub mod udpmodel;
+
 pub mod trace {
     use std::cell::RefCell;
     use std::fmt::Write;
@@ -234,6 +239,9 @@ pub mod trace {
         fn record(&self, _: &Id, _: &Record<'_>) {}
         fn record_follows_from(&self, _: &Id, _: &Id) {}
         fn event(&self, e: &Event<'_>) {
+            if !CAPTURING.with(|c| c.get()) {
+                return;
+            }
             let mut s = String::new();
             let cur = STACK.with(|st| st.borrow().last().copied());
             if let Some(c) = cur {
@@ -256,13 +264,30 @@ pub mod trace {
         }
     }
 
+    thread_local! {
+        static CAPTURING: std::cell::Cell<bool> = const { std::cell::Cell::new(false) };
+    }
+
+    /// One process-wide subscriber, installed once. (Per-run `with_default` dispatchers made tracing
+    /// rebuild its global callsite-interest cache whenever another worker thread started or finished a
+    /// run, and events emitted on this thread during such a rebuild were occasionally skipped — a
+    /// nondeterminism of the capture, not of the subject.)
+    fn install() {
+        static ONCE: std::sync::Once = std::sync::Once::new();
+        ONCE.call_once(|| {
+            let _ = tracing::subscriber::set_global_default(Capture { next: AtomicU64::new(1) });
+        });
+    }
+
     /// Run `f` with turmoil's tracing events captured on this thread; returns them in order.
     pub fn capture<R>(f: impl FnOnce() -> R) -> (R, Vec<String>) {
+        install();
         EVENTS.with(|e| e.borrow_mut().clear());
         SPANS.with(|e| e.borrow_mut().clear());
         STACK.with(|e| e.borrow_mut().clear());
-        let sub = Capture { next: AtomicU64::new(1) };
-        let r = tracing::subscriber::with_default(sub, f);
+        let prev = CAPTURING.with(|c| c.replace(true));
+        let r = f();
+        CAPTURING.with(|c| c.set(prev));
         let ev = EVENTS.with(|e| std::mem::take(&mut *e.borrow_mut()));
         (r, ev)
     }
